@@ -305,3 +305,91 @@ theorem C06_gaussian_filter_constant {K : Type} [Field K] [LinearOrder K] [IsStr
       · rw [h]; exact hw.2.2.1.2
       · rw [h]; exact hw.2.2.2.2.2
     rw [prod_eq_zero_of_mem _ (List.mem_map.2 ⟨ax, List.mem_range.2 hax, hz0⟩), zero_mul]
+
+/-- **C06-T4d (order-1 response to a unit ramp: sign and closed form).** At a pixel whose window lies
+inside the image, the correlation the kernels compute with the order-1 weights on the ramp
+`f(t) = t` — `Σ_i W₁[i]·(t + (i − lw))` — does not depend on `t` and equals `m₂/σ²` with
+`m₂ = Σ_i W₀[i]·(i − lw)²` the second moment of the truncated normalised Gaussian; it is strictly
+positive for `σ² > 0`, `lw ≥ 1` (the sign the statement asks for, "+1"; that `m₂/σ² ≈ 1` is validated
+numerically, not proved). -/
+theorem C06_gauss_ramp_response {K : Type} [Field K] [LinearOrder K] [IsStrictOrderedRing K]
+    (e : K → K) (he : ∀ x, e (-x) = e x) (hpos : ∀ x, 0 < e x) (s2 : K) (lw : Nat) (t : K) :
+    let W := fun order => gaussWeightsG (Nat.cast : Nat → K) e s2 lw order
+    ((List.range (2 * lw + 1)).map fun i => (W 1).getD i 0 * (t + ((i : K) - (lw : K)))).sum =
+      ((List.range (2 * lw + 1)).map fun i => (W 0).getD i 0 * ((i : K) - (lw : K)) ^ 2).sum / s2 ∧
+    (0 < s2 → 1 ≤ lw →
+      0 < ((List.range (2 * lw + 1)).map fun i => (W 0).getD i 0 * ((i : K) - (lw : K)) ^ 2).sum / s2) := by
+  intro W
+  have hw := C06_gauss_weights e he hpos s2 lw
+  constructor
+  · have h1 : ((List.range (2 * lw + 1)).map fun i => (W 1).getD i 0 * (t + ((i : K) - (lw : K)))) =
+        (List.range (2 * lw + 1)).map fun i =>
+          (W 1).getD i 0 * t + (W 0).getD i 0 * ((i : K) - (lw : K)) ^ 2 / s2 := by
+      apply List.map_congr_left
+      intro i hi
+      have hi' : i ≤ 2 * lw := by have := List.mem_range.1 hi; omega
+      rw [(hw.2.2.1.1 i hi').1]
+      ring
+    rw [h1, List.sum_map_add, sum_map_mul_const]
+    have h2 : (List.range (2 * lw + 1)).map (fun i => (W 1).getD i 0) = (W 1).toList := by
+      rw [← hw.1 1]; exact range_map_getD (W 1)
+    rw [h2, hw.2.2.1.2, zero_mul, zero_add]
+    have h3 : ((List.range (2 * lw + 1)).map fun i => (W 0).getD i 0 * ((i : K) - (lw : K)) ^ 2 / s2) =
+        ((List.range (2 * lw + 1)).map fun i => (W 0).getD i 0 * ((i : K) - (lw : K)) ^ 2).map (· / s2) := by
+      rw [List.map_map]; rfl
+    rw [h3, sum_map_div]
+  · intro hs2 hlw
+    apply div_pos _ hs2
+    have hnn : ∀ x ∈ (List.range (2 * lw + 1)).map fun i => (W 0).getD i 0 * ((i : K) - (lw : K)) ^ 2,
+        0 ≤ x := by
+      intro x hx
+      obtain ⟨i, hi, rfl⟩ := List.mem_map.1 hx
+      have hi' : i ≤ 2 * lw := by have := List.mem_range.1 hi; omega
+      exact mul_nonneg (le_of_lt (hw.2.1.1 i hi').2) (sq_nonneg _)
+    have hmem : (W 0).getD 0 0 * (((0 : Nat) : K) - (lw : K)) ^ 2 ∈
+        (List.range (2 * lw + 1)).map fun i => (W 0).getD i 0 * ((i : K) - (lw : K)) ^ 2 :=
+      List.mem_map.2 ⟨0, List.mem_range.2 (by omega), rfl⟩
+    have hle := List.single_le_sum hnn _ hmem
+    have hlwK : (0 : K) < (lw : K) := by exact_mod_cast hlw
+    have hterm : 0 < (W 0).getD 0 0 * (((0 : Nat) : K) - (lw : K)) ^ 2 := by
+      apply mul_pos (hw.2.1.1 0 (by omega)).2
+      have : (((0 : Nat) : K) - (lw : K)) ^ 2 = (lw : K) ^ 2 := by push_cast; ring
+      rw [this]
+      exact pow_pos hlwK 2
+    exact lt_of_lt_of_le hterm hle
+
+/-- non-vacuity of T3: a 2×3×2 integer image, the *middle* axis (a genuine transposition), kernel
+    `[2, −1]` (even length, asymmetric) shorter than the axis, mirror mode: axis `−2` normalises to 1, the
+    two paths are taken and return the same values. -/
+example :
+    let f : Img Int := { shape := [2, 3, 2], data := #[1, 2, 3, 4, 5, 6, 7, 8, 9, 10, 11, 12] }
+    let w : Array Int := #[2, -1]
+    normAxis 3 (-2) = 1 ∧ 1 < f.shape.length ∧ w.size < f.shape.getD 1 1 ∧
+    (convolve1dG id (fun x => x == 0) .mirror f true 1 w).2 = true ∧
+    (convolve1dG id (fun x => x == 0) .mirror f false 1 w).2 = false ∧
+    (convolve1dG id (fun x => x == 0) .mirror f true 1 w).1 =
+      (convolve1dG id (fun x => x == 0) .mirror f false 1 w).1 ∧
+    (convolve1dG id (fun x => x == 0) .mirror f true 1 w).1 = [5, 6, -1, 0, 1, 2, 11, 12, 5, 6, 7, 8] := by
+  decide
+
+/-- non-vacuity of T4 over ℚ with the positive even function `e x = 1/(1 + x²)`, `σ² = 2`, `lw = 1`:
+    the four weight vectors (order 0 symmetric with sum 1; order 1 antisymmetric, positive right of the
+    centre; order 2 symmetric with sum `−3/8 ≠ 0` — a constant image is *not* annihilated exactly by
+    order 2 —; order 3 antisymmetric). -/
+example :
+    gaussWeightsG (Nat.cast : Nat → ℚ) (fun x => 1 / (1 + x * x)) 2 1 0 = #[1 / 4, 1 / 2, 1 / 4] ∧
+    gaussWeightsG (Nat.cast : Nat → ℚ) (fun x => 1 / (1 + x * x)) 2 1 1 = #[-1 / 8, 0, 1 / 8] ∧
+    gaussWeightsG (Nat.cast : Nat → ℚ) (fun x => 1 / (1 + x * x)) 2 1 2 = #[-1 / 16, -1 / 4, -1 / 16] ∧
+    gaussWeightsG (Nat.cast : Nat → ℚ) (fun x => 1 / (1 + x * x)) 2 1 3 = #[5 / 32, 0, -5 / 32] ∧
+    (gaussWeightsG (Nat.cast : Nat → ℚ) (fun x => 1 / (1 + x * x)) 2 1 2).toList.sum = -3 / 8 := by
+  decide +kernel
+
+/-- non-vacuity of T4c: the constant 2×3 image `5` under `gaussian_filter` with those order-0 weights on
+    both axes in reflect mode is reproduced; with order 1 on the second axis it becomes 0. -/
+example :
+    let f : Img ℚ := { shape := [2, 3], data := #[5, 5, 5, 5, 5, 5] }
+    (gaussianFilterG id (fun x => x == 0) .reflect f fun _ =>
+      gaussWeightsG (Nat.cast : Nat → ℚ) (fun x => 1 / (1 + x * x)) 2 1 0).data = #[5, 5, 5, 5, 5, 5] ∧
+    (gaussianFilterG id (fun x => x == 0) .reflect f fun ax =>
+      gaussWeightsG (Nat.cast : Nat → ℚ) (fun x => 1 / (1 + x * x)) 2 1 ax).data = #[0, 0, 0, 0, 0, 0] := by
+  decide +kernel
